@@ -388,3 +388,26 @@ def gen_universe(rng, size=4, with_ext=True, ext_forms=False, force=None):
         v = lmfv()
         out.append(('cc:1', {'lmf_version': v, 'lexicons': [gen_lexicon(rng, 'cc', '1', 'de', ilis[:2], v, 2)]}))
     return out
+
+
+def corpus_ext(new_form=True):
+    """Fixed two-resource universe that every run includes (the witnesses of known findings F3 and F14): a base lexicon and an
+    extension that attaches a tag and a pronunciation to the lemma of a base entry (F3) and adds a new form to it (F14)."""
+    def lex(lid, **kw):
+        d = {'id': lid, 'label': 'Label of ' + lid, 'language': 'en', 'email': 'a@b.c', 'license': 'CC', 'version': '1', 'meta': None,
+             'entries': [], 'synsets': []}
+        d.update(kw)
+        return d
+    base = lex('fb', entries=[{'id': 'fb-e1', 'meta': None,
+                               'lemma': {'writtenForm': 'cat', 'partOfSpeech': 'n', 'tags': [{'text': 'sg', 'category': 'number'}]},
+                               'forms': [{'writtenForm': 'cats', 'id': 'fb-e1-f1'}],
+                               'senses': [{'id': 'fb-e1-s1', 'synset': 'fb-s1', 'meta': None}]}],
+               synsets=[{'id': 'fb-s1', 'ili': '', 'partOfSpeech': 'n', 'meta': None}])
+    ext = lex('fx', extends={'id': 'fb', 'version': '1'},
+              entries=[{'id': 'fb-e1', 'external': True,
+                        'lemma': {'external': True, 'tags': [{'text': 'pl', 'category': 'number'}],
+                                  'pronunciations': [{'text': 'kat', 'notation': 'ipa'}]},
+                        'forms': ([{'writtenForm': 'extform', 'id': 'fx-fb-e1-nf'}] if new_form else [])}])
+    if not new_form:
+        del ext['entries'][0]['forms']
+    return [('fb:1', {'lmf_version': '1.1', 'lexicons': [base]}), ('fx:1', {'lmf_version': '1.1', 'lexicons': [ext]})]
